@@ -40,6 +40,7 @@ type C14Spec struct {
 	Builders    []c14Builder `json:"builders"`
 	IsSig       bool         `json:"is_sig"`
 	ContextOne  bool         `json:"context_one"` // context = 1 (the value the server assumes when none is sent)
+	SameIssuer  bool         `json:"same_issuer"` // all keys carry one issuer name and differ only in their counter (rotated keys)
 	OnlyFault   []string     `json:"only_fault,omitempty"`
 }
 
@@ -73,6 +74,7 @@ func drawC14(rt *rapid.T) C14Spec {
 	}
 	s.IsSig = rapid.Bool().Draw(rt, "issig")
 	s.ContextOne = rapid.IntRange(0, 3).Draw(rt, "ctx1") == 0
+	s.SameIssuer = rapid.IntRange(0, 2).Draw(rt, "sameissuer") == 0
 	return s
 }
 
@@ -190,8 +192,18 @@ func execC14Bubble(r *kernel.Run, s C14Spec) {
 	kernel.SeedLibrary(r.T, s.LibSeed)
 	w := newWorld(r, s.ValSeed)
 	var keys []*kernel.Key
+	counters := map[uint]bool{}
 	for _, n := range s.Keys {
-		keys = append(keys, kernel.GetKey(n))
+		k := kernel.GetKey(n)
+		if s.SameIssuer && !counters[k.Pk.Counter] {
+			// an issuer that rotated its key: same issuer name, different counters (private copies, the
+			// shared key objects are never modified)
+			counters[k.Pk.Counter] = true
+			pkc := *k.Pk
+			pkc.Issuer = "rotating-issuer"
+			k = &kernel.Key{Name: k.Name, Bits: k.Bits, Z128: k.Z128, Pk: &pkc, Sk: k.Sk}
+		}
+		keys = append(keys, k)
 	}
 	userSecret, err := gabi.NewKeyshareSecret()
 	if err != nil {
